@@ -26,6 +26,57 @@ CLAIMED = {
    note="Trusted: rustc type check + driver serialisation, a dozen transfer functions in pmh/inv.py, Python integers. Statements outside the transfer functions are reported as cannot-establish.",
    ref="DESIGN.md §4 C19"),
 }
+CLAIMED.update({
+ "C05": dict(category="other",
+   text=STRUCT_TXT % "SetSketcher::merge rejects on every parameter copied by new before its first effect (dominance), its only register effect is the element-wise max over the full range, lower_k is only set to 0 or raised to a min-fold of the registers, register writes of SuperMinHash/SetSketcher are guarded improvements",
+   technique="custom static analysis over rustc HIR: dominance of rejecting comparisons over effects, write-shape matching, who-may-write rule for lower_k",
+   ref="DESIGN.md §4 C05"),
+ "C06": dict(category="other",
+   text=STRUCT_TXT % "registers never decrease (guarded writes, element-wise max merge, no other writer) and the sketcher's estimate and the parallel estimator reduce to the same normal form",
+   technique="custom static analysis over rustc HIR: guarded-write and writer rules, sibling normal-form comparison of the two estimators",
+   ref="DESIGN.md §4 C06"),
+ "C07": dict(category="other",
+   text=STRUCT_TXT % "get_jaccard_bounds has no panic edge other than an argument precondition (MIR panic-edge inventory)",
+   technique="panic-edge inventory on rustc MIR with structural classification of precondition assertions",
+   ref="DESIGN.md §4 C07"),
+ "C09": dict(category="other",
+   text=STRUCT_TXT % "densify writes only under !init[t], reads only under init[s], copies value and hash together, keeps init/nb_empty in step; the finisher is called once under no foreign condition; an empty-stream guard with Err return dominates every search loop; the u32 view depends on the u64 view and a literal only; panic-edge inventory of the finishing path",
+   technique="custom static analysis over rustc HIR/MIR: control-dependence of writes/reads on the occupancy flags, pairing, dominating-guard (must-pass) rule, panic-edge inventory, backward slicing",
+   ref="DESIGN.md §4 C09"),
+ "C10": dict(category="other",
+   text="Decides ONLY structural preconditions of the collision-probability claim (which is an expectation and is not decided): each (element, occurrence) race is seeded from all of element hash, occurrence number and instance seed through a mixing construction (SEED required roots + SEEDMIX); the race loop is left only when no position can accept the value (EXIT); positions hash their l selected elements in sequence order (MUSTPASS/PAIR).",
+   technique="custom static analysis over rustc HIR: backward slicing with required roots, seed-mixing classification, loop-exit classification, dominance",
+   ref="DESIGN.md §4 C10"),
+ "C11": dict(category="other",
+   text=STRUCT_TXT % "every exit of the race loop is a comparison with the tracker maximum or the slot bound (a break on a per-slot result is illegitimate); the per-pair seed depends on element, occurrence count and instance seed and never on the sequence index; the index flows only into the index store; sort-before-hash in create_signature; per-element permutation reset",
+   technique="custom static analysis over rustc HIR: loop-exit classification, backward slicing, dominance (must-pass), paired-write matching",
+   ref="DESIGN.md §4 C11"),
+ "C12": dict(category="other",
+   text="Decides the property for the library's own code: no call site (resolved through generics on MIR) draws from an ambient entropy/time/address/thread/environment source outside two tabled opt-in functions; no RandomState/ThreadRng/interior-mutable state in fields or statics outside a tabled list; hasher fields and constructor parameters are BuildHasherDefault by type; no seeding site has an ambient source among its roots. Determinism of user-supplied hashers and dependency algorithms is assumed.",
+   technique="who-may-call analysis over every resolved MIR call site and item type (rustc driver), backward slicing of seeds, type-level witness",
+   ref="DESIGN.md §4 C12"),
+ "C13": dict(category="other",
+   text="Decides reset == new structurally for ten (constructor, reset) pairs: every field that is mutated by some method and live-in to some method is fully overwritten by the reset on every path (field effect summaries, transitive through sibling and nested methods), and the constructor's and the reset's initialisation specs agree per field. Value-level behaviour beyond InitSpec equality is not decided.",
+   technique="field effect analysis (live-in / must-kill / mutated summaries) and initialisation-spec comparison over rustc HIR",
+   ref="DESIGN.md §4 C13"),
+ "C14": dict(category="other",
+   text=STRUCT_TXT % "the six counting estimators match the template length-check / full-range loop / count of equal same-index pairs / count over length, aliases are pure delegations, every panic edge of the estimators is a precondition, machine-discharged or individually argued, and the MLE optimiser's start value is clamped into a bracket within [0,1]",
+   technique="template matching and sibling comparison over rustc HIR, panic-edge inventory on MIR, clamp-chain rule against the external solver's contract",
+   ref="DESIGN.md §4 C14"),
+ "C17": dict(category="other",
+   text=STRUCT_TXT % "the permutation array is only swapped or set to identity (who-may-write), reset == new for FYshuffle, exactly one cursor increment per draw, read/swap/increment order of next. Uniformity is not decided.",
+   technique="who-may-write rule, field effect analysis and InitSpec comparison, counter and ordering rules over rustc HIR",
+   ref="DESIGN.md §4 C17"),
+ "C18": dict(category="other",
+   text="Decides the property structurally: inventory of user-written unsafe (none after the repair; Vec::from_raw_parts must transfer ownership and keep layout), and every impl of the byte-identity trait is built only from native-endian bytes of self in order (injective fixed-width concatenation).",
+   technique="unsafe inventory with ownership-transfer rule and call-whitelist classification of trait impls over rustc HIR",
+   ref="DESIGN.md §4 C18"),
+ "C20": dict(category="other",
+   text=STRUCT_TXT % "reload_json has no panic edge beyond unwraps discharged by a dominating is_err() return, every Result in it is propagated/tested/returned, the persisted form is a derived-serde JSON object read to EOF into Self and returned unchanged, the dump truncates, both sides use the same file name. Float round-trip exactness is not decided.",
+   technique="panic-edge inventory on rustc MIR with dominator-based discharge, error-flow rule and shape checks over HIR and item facts",
+   ref="DESIGN.md §4 C20"),
+})
+
 NA = {
  "C01": "expectation / mean-squared-error over hash randomness: the truth lies in numeric rate constants, not in the shape of the code; its structural preconditions are decided under C02, C12, C14",
  "C03": "expectation and variance over hash randomness and a uniform-permutation law; structural preconditions are decided under C04 and C14",
